@@ -62,10 +62,11 @@ def rand_case(rng, n=None, K=None, C=None, shape=None, big=False):
 
 def gen(rng, tier):
     cases = []
-    for k in range({"quick": 26, "search": 60, "thorough": 120}[tier]):
+    for k in range({"quick": 24, "search": 60, "thorough": 120}[tier]):
         # the implementation's ADD path costs up to minutes per instance at 5 units x 5 rows x K=3 x 3 classes: a third of the
-        # thorough cases (a sixth of the quick ones) are of that size
-        cases.append(rand_case(rng, big=(k % 3 == 2 if tier == "thorough" else k % 6 == 5)))
+        # thorough / search cases are of that size, none of the quick ones (the quick tier has to stay within minutes whatever
+        # the generator seed)
+        cases.append(rand_case(rng, big=(k % 3 == 2 and tier != "quick")))
     for k in range({"quick": 6, "search": 10, "thorough": 40}[tier]):
         c = rand_case(rng, n=rng.randint(2, 4), C=2, shape="onerow")
         c["utility"] = "accuracy"
@@ -80,12 +81,12 @@ def gen(rng, tier):
             c = rand_case(rng, n=n, K=2, C=2, shape="hyper")
             if c["C"] == 2 and c["K"] == 2 and len(c["rows"]) >= 3 and set(u for r in c["rows"] for u in r) == set(range(n)):
                 return c
-    cases.append({"multi": [multi_inst(n) for n in (3, 5)]})
+    cases.append({"multi": [multi_inst(n) for n in ((3, 4) if tier == "quick" else (3, 5))]})
     # HISTORIES on one Provenance object held by one fitted importance object: score, swap two different rows IN PLACE (the array
     # keeps its shape), score again -- the second result is the Shapley value of the EDITED provenance
-    for _ in range({"quick": 4, "search": 6, "thorough": 20}[tier]):
+    for _ in range({"quick": 3, "search": 6, "thorough": 20}[tier]):
         while True:
-            c1 = rand_case(rng, n=rng.choice([3, 3, 4]), shape="hyper")
+            c1 = rand_case(rng, n=(3 if tier == "quick" else rng.choice([3, 3, 4])), shape="hyper")
             pairs = [(i, j) for i in range(len(c1["rows"])) for j in range(i) if c1["rows"][i] != c1["rows"][j]]
             if pairs and c1["n"] >= 2:
                 break
